@@ -26,11 +26,12 @@ import (
 )
 
 const rule = "cases = rapid-drawn scenarios (registry mode long/short idle limit/short lifetime limit, 2-5 logical clients each holding at most one transaction, " +
-	"6-32 steps over begin{direct,Registry.Begin,service RPC; ro/rw; optional 20-100 ms deadline}/write_tx(=begin rw+put+commit)/put/del/get/scan/commit/rollback/abandon/rejected TxGet/" +
+	"6-32 steps over begin{direct,Registry.Begin,service RPC; ro/rw; optional 20-100 ms deadline or caller cancels before/at/50us after the lock grant}/write_tx(=begin rw+put+commit)/put/del/get/scan/commit{optionally on an injected ApplyBatch fault}/rollback/abandon/rejected TxGet/" +
 	"CleanupStaleTransactions/CleanupConnection/GracefulShutdown, drawn way of ending what is still open), each executed in a child process on its own engine; " +
 	"oracle = lock-aware model (who holds the RW lock, which begins are queued) + map model of the database + closed-error rule + 'a fresh read-write " +
 	"transaction begins within 5 s and put+commit works' after every scenario (scenarios with a timed-out begin are run 4 times); " +
-	"non-trivial = the executed scenario contains a begin that timed out while queued for the lock, an abandoned transaction cleaned up by the server, " +
+	"non-trivial = the executed scenario contains a begin that timed out while queued for the lock, a begin whose caller gives up at the moment the lock is granted, " +
+	"a commit that hit an injected storage fault, an abandoned transaction cleaned up by the server, " +
 	"or a repeated commit/rollback while another client holds or waits for the lock; distinct by FNV-64 of the case JSON"
 
 // KV is one initial database entry.
@@ -51,6 +52,8 @@ type Step struct {
 	RO         bool   `json:"ro,omitempty"`          // begin
 	Peer       bool   `json:"peer,omitempty"`        // begin: context carries a "peer" connection id; cleanup_conn: clean conn-<C> (else "unknown")
 	DeadlineMs int    `json:"deadline_ms,omitempty"` // begin: context deadline, used when the call certainly has to wait longer
+	GiveUp     string `json:"give_up,omitempty"`     // begin (reg/svc): the caller's context is cancelled before_grant | at_grant | soon_after the lock is granted inside Registry.Begin
+	Fault      bool   `json:"fault,omitempty"`       // commit/write_tx: the storage refuses the batch of this commit (wrapped backend only)
 	K          int    `json:"k,omitempty"`
 	V          string `json:"v,omitempty"`
 	Again      bool   `json:"again,omitempty"`       // put/del/get/scan/commit/rollback: prefer a client whose transaction is already finished
@@ -62,7 +65,8 @@ type Step struct {
 
 // Case is one generated scenario.
 type Case struct {
-	Mode    string `json:"mode"` // long | short_idle | short_ttl
+	Mode    string `json:"mode"`              // long | short_idle | short_ttl
+	Backend string `json:"backend,omitempty"` // "" = transactions from the engine's own manager; wrapped = own manager over the engine's storage manager behind the fault-injecting pass-through
 	LimitMs int    `json:"limit_ms"`
 	Clients int    `json:"clients"`
 	Init    []KV   `json:"init,omitempty"`
@@ -150,7 +154,7 @@ func childMain(specPath, resPath string) {
 		}
 		// the outcome of a begin that timed out in the queue is a coin flip per
 		// late begin on a tree with the leak: run such scenarios 4 times
-		if rep == 0 && feats["late_begin"] {
+		if rep == 0 && (feats["late_begin"] || feats["cancel_at_grant"]) {
 			reps = 4
 		}
 	}
@@ -312,6 +316,9 @@ func genStep(t *rapid.T) Step {
 				ev.R().Exclude("late_begin_timeout")
 				s.DeadlineMs = 0
 			}
+			if g := rapid.SampledFrom([]string{"", "", "", "", "", "", "at_grant", "at_grant", "before_grant", "soon_after"}).Draw(t, "give_up"); s.DeadlineMs == 0 {
+				s.GiveUp = g
+			}
 		}
 	case "write_tx":
 		s.Path = rapid.SampledFrom([]string{"direct", "reg", "svc"}).Draw(t, "path")
@@ -319,6 +326,7 @@ func genStep(t *rapid.T) Step {
 		s.K = rapid.SampledFrom(keyTable).Draw(t, "k")
 		s.V = fmt.Sprintf("w%d", rapid.IntRange(0, 999).Draw(t, "v"))
 		s.Keep = rapid.IntRange(0, 9).Draw(t, "keep") < 3
+		s.Fault = rapid.IntRange(0, 9).Draw(t, "fault") < 3
 	case "put":
 		s.K = rapid.SampledFrom(keyTable).Draw(t, "k")
 		s.V = fmt.Sprintf("v%d", rapid.IntRange(0, 999).Draw(t, "v"))
@@ -331,6 +339,9 @@ func genStep(t *rapid.T) Step {
 	case "commit", "rollback":
 		s.Keep = rapid.IntRange(0, 9).Draw(t, "keep") < 3
 		s.Again = rapid.IntRange(0, 9).Draw(t, "again") < 4
+		if s.Op == "commit" {
+			s.Fault = rapid.IntRange(0, 9).Draw(t, "fault") < 3
+		}
 	case "cleanup_conn":
 		s.Peer = rapid.IntRange(0, 9).Draw(t, "peer") < 8
 		s.Svc = rapid.Bool().Draw(t, "via_service")
@@ -349,6 +360,9 @@ func genCase(t *rapid.T) Case {
 		Mode:    rapid.SampledFrom([]string{"long", "long", "short_idle", "short_ttl"}).Draw(t, "mode"),
 		Clients: rapid.IntRange(2, 5).Draw(t, "clients"),
 		End:     rapid.SampledFrom([]string{"rollback", "conn", "stale", "shutdown"}).Draw(t, "end"),
+	}
+	if rapid.Bool().Draw(t, "wrapped_backend") {
+		c.Backend = "wrapped"
 	}
 	if c.Mode != "long" {
 		c.LimitMs = rapid.SampledFrom([]int{20, 30, 50}).Draw(t, "limit_ms")
@@ -369,7 +383,7 @@ func classify(res *Result) (nontrivial bool, classes []string) {
 		f[x] = true
 		classes = append(classes, x)
 	}
-	nontrivial = f["late_begin"] || f["abandoned_cleaned"] || f["double_finish_contended"]
+	nontrivial = f["late_begin"] || f["cancel_at_grant"] || f["commit_fault_injected"] || f["abandoned_cleaned"] || f["double_finish_contended"]
 	if nontrivial {
 		classes = append(classes, "nontrivial")
 	}
@@ -439,7 +453,7 @@ func TestReplay(t *testing.T) {
 			return
 		}
 		for _, x := range res.Features {
-			if x == "late_begin" && i == 0 {
+			if (x == "late_begin" || x == "cancel_at_grant") && i == 0 {
 				tries = 3
 			}
 		}
